@@ -250,6 +250,10 @@ func runC04(c *Ctx) {
 						head, status = okHead(), message.GlobalStatusTimeoutRollbacking
 					case 6:
 						head, status = okHead(), message.GlobalStatusRollbacked
+					case 7:
+						// the coordinator no longer knows the transaction (it rolled it back after a timeout, say, and
+						// forgot it): "Success, Finished" says nothing of a commit
+						head, status = okHead(), message.GlobalStatusFinished
 					}
 					c.Out.Count(fmt.Sprintf("refusal.form%d", form))
 					return Action{Body: message.GlobalCommitResponse{AbstractGlobalEndResponse: message.AbstractGlobalEndResponse{AbstractTransactionResponse: head, GlobalStatus: status}}}
@@ -268,8 +272,6 @@ func runC04(c *Ctx) {
 				case 4:
 					// the commit is decided although the reply's result code says Failed (a repeated request, say)
 					head = failHead("already committed")
-				case 5:
-					status = message.GlobalStatusFinished
 				}
 				c.Out.Count(fmt.Sprintf("ack.form%d", form))
 				return Action{Body: message.GlobalCommitResponse{AbstractGlobalEndResponse: message.AbstractGlobalEndResponse{AbstractTransactionResponse: head, GlobalStatus: status}}}
